@@ -16,6 +16,7 @@ from lib.framework import Check, enc, dec, time_limit
 from gen import c03_productions, relib
 from harness import c03_content as C
 from harness import c03_sheets as S
+from harness import c03_canon as K
 
 PATTERN_NAMES = ['STRING', 'URI', 'IDENT', 'COMMENT', 'unicodesub', 'stringsub', 'simpleescapes', 'forbidden_in_uri']
 
@@ -40,7 +41,9 @@ class C03(Check):
     id = 'C03'
     props_module = 'CssVerif.Props.C03'
     driver_exe = 'drv_c03'
-    sources = ('cssutils/serialize.py', 'cssutils/helper.py', 'cssutils/tokenize2.py', 'cssutils/cssproductions.py',
+    sources = ('cssutils/serialize.py', 'cssutils/css/cssstylesheet.py', 'cssutils/css/cssstylerule.py',
+               'cssutils/css/cssstyledeclaration.py', 'cssutils/css/property.py', 'cssutils/css/cssmediarule.py',
+               'cssutils/css/csspagerule.py', 'cssutils/css/marginrule.py', 'cssutils/css/cssfontfacerule.py', 'cssutils/helper.py', 'cssutils/tokenize2.py', 'cssutils/cssproductions.py',
                'cssutils/util.py', 'cssutils/css/value.py', 'cssutils/css/selector.py', 'cssutils/css/csscomment.py',
                'cssutils/css/cssimportrule.py', 'cssutils/css/cssnamespacerule.py', 'cssutils/css/csscharsetrule.py')
     trusted_base = (
@@ -85,6 +88,7 @@ class C03(Check):
             ctx.phase(self.corr_safe, ctx, cssutils, rng)
             self.setup_impl(cssutils)
             ctx.phase(self.corr_image, ctx, cssutils, rng)
+            ctx.phase(self.corr_canon, ctx, cssutils)
             ctx.phase(self.oracle_corpus, ctx, cssutils)
             ctx.phase(self.oracle_structural, ctx, cssutils, rng)
             ctx.phase(self.oracle_namespaces, ctx, cssutils, rng)
@@ -103,6 +107,10 @@ class C03(Check):
         S.init(cssutils)
         self.parser = cssutils.CSSParser(fetcher=lambda url: (None, ''))
         self.tk = tokenize2.Tokenizer()
+
+    # -- sheet level: `serialise` of Model/SheetCanon.lean vs the tokens of the real cssText ----------------
+    def corr_canon(self, ctx, cssutils):
+        K.run(ctx, cssutils)
 
     # -- (1) generated patterns vs compiled patterns vs hand recognisers ------------------------------
     def compiled(self, cssutils):
